@@ -1,4 +1,5 @@
 import SupervisorModel.Model.Rpc
+import SupervisorModel.Props.C16
 /-
   C12 — XML-RPC exposes only the public API; answers are results or documented faults.
   Property theorems only.  `Sv.Gen.Rpc.*` (Faults, the gate table, the raise tables, the
@@ -7,9 +8,10 @@ import SupervisorModel.Model.Rpc
 
     closure          traverse_closed, refused_executes_nothing, traverse_dichotomy   (every attribute table)
     arity            arity_fault, call_runs_body
-    gating           gating_partial (+ gating_sendRemoteCommEvent_counterexample, finding F27), gating_table_ok
+    gating           gating_partial (+ gating_sendRemoteCommEvent_counterexample, finding F39), gating_table_ok
     fault codes      fault_codes_documented, faults_distinct
-    multicall        multicall_sequential, multicall_recursion_refused, multicall_faults_as_structs
+    multicall        multicall_sequential, multicall_recursion_refused, multicall_elements
+    answers          never_500_partial, log_methods_answer (what IS proved of "never an HTTP 500")
 -/
 set_option linter.unusedSimpArgs false
 namespace Sv.Props.C12
@@ -252,7 +254,7 @@ theorem gating_table_ok :
 
 /-- **gating (partial).**  Full statement: for every `name ∈ docProcessControlMethods`, mood below
     RUNNING ⇒ the answer is SHUTDOWN_STATE and nothing changes.  It fails for exactly one
-    method, `sendRemoteCommEvent`, which never calls `_update` (finding F27, counterexample below);
+    method, `sendRemoteCommEvent`, which never calls `_update` (finding F39, counterexample below);
     the hypothesis `name ≠ "sendRemoteCommEvent"` excludes it. -/
 theorem gating_partial {σ ν : Type} (name : String) (hn : name ∈ docProcessControlMethods)
     (hx : name ≠ "sendRemoteCommEvent") (mood : Int) (hm : mood < moodRunning)
@@ -272,7 +274,7 @@ theorem gating_status_logging {σ ν : Type} (name : String) (hn : name ∈ docS
   obtain ⟨c, hc, hr⟩ := gated_answers_shutdown g hg mood hm nLeaf leafBody body s
   exact ⟨g, c, hl, hc, hr⟩
 
-/-- F27: sendRemoteCommEvent is listed under "Process Control", has no gate, and its body runs in
+/-- F39: sendRemoteCommEvent is listed under "Process Control", has no gate, and its body runs in
     every mood -/
 theorem gating_sendRemoteCommEvent_counterexample :
     "sendRemoteCommEvent" ∈ docProcessControlMethods ∧ gateTable.lookup "sendRemoteCommEvent" = some Gate.none ∧
@@ -479,6 +481,172 @@ example : multicall demoMc (fun _ x => x) 10
     = some ([.val 1, .fstruct 10, .fstruct 2, .val 3], ["s.a/0", "s.d/0", "poll:s.d", "poll:s.d", "poll:s.d", "s.b/0"]) := by
   decide
 example : multicall demoMc (fun _ x => x) 2 [⟨some "s.d".toList, []⟩] [] = none := by decide
+
+
+/-! ## "never an HTTP 500": what is proved about answers -/
+
+/-- `try: return func(*params) / except TypeError: raise RPCError(INCORRECT_PARAMETERS)` -/
+def mapTypeError {σ ν : Type} (r : Outcome σ ν × σ) : Outcome σ ν × σ :=
+  match r with
+  | (.raised w, s') => if w = "TypeError" then (raiseFault (nthFault 4), s') else (.raised w, s')
+  | r => r
+
+/-- an answer of the C16 log-method models as an outcome of a method body -/
+def ofAns {σ ν α : Type} (emb : α → ν) : RpcLog.Ans α → Outcome σ ν
+  | .ok v => .value (emb v)
+  | .fault c => .fault c
+  | .exc w => .raised w
+
+/-- the answer is a value or a fault whose code is a constant of `Faults` -/
+def Documented {σ ν : Type} (o : Outcome σ ν) : Prop :=
+  (∃ v, o = .value v) ∨ (∃ c, c ∈ faults.map (·.2) ∧ o = .fault c)
+
+theorem rpclog_fault_in_table {α : Type} (n : String) (c : Int) (h : (RpcLog.raiseFault n : RpcLog.Ans α) = .fault c) :
+    c ∈ faults.map (·.2) := by
+  unfold RpcLog.raiseFault RpcLog.faultCode at h
+  cases hl : faults.lookup n with
+  | none => simp [hl] at h
+  | some c' =>
+    simp only [hl, RpcLog.Ans.fault.injEq] at h
+    subst h
+    have : ∀ (l : List (String × Int)), l.lookup n = some c' → c' ∈ l.map (·.2) := by
+      intro l
+      induction l with
+      | nil => simp [List.lookup]
+      | cons x r ih =>
+        intro hx
+        simp only [List.lookup] at hx
+        split at hx
+        · simp only [Option.some.injEq] at hx; simp [hx]
+        · simp [ih hx]
+    exact this faults hl
+
+/-- **log methods answer a value or a documented fault** — for every decoder pair, mood, process
+    lookup result, log file, content, offset and length (C16 `log_rpc_never_raises` carried over to
+    outcomes; this is where fix F7 enters C12) -/
+theorem log_methods_answer {σ ν : Type} (emb : Bytes → ν) (embT : RpcLog.TailAns → ν) (dec : RpcLog.Decoders)
+    (mood : Int) (found : Bool) (lf : RpcLog.LogFile) (o l : Int) :
+    Documented (ofAns (σ := σ) emb (RpcLog.readLog dec mood lf o l)) ∧
+    Documented (ofAns (σ := σ) emb (RpcLog.readProcessLog dec mood found lf o l)) ∧
+    Documented (ofAns (σ := σ) embT (RpcLog.tailProcessLog dec mood found lf o l)) := by
+  obtain ⟨h1, h2, h3⟩ := Sv.Props.C16.log_rpc_never_raises dec mood found lf o l
+  have key : ∀ {α : Type} (e : α → ν) (a : RpcLog.Ans α), (∀ w, a ≠ .exc w) →
+      (∀ c, a = .fault c → c ∈ faults.map (·.2)) → Documented (ofAns (σ := σ) e a) := by
+    intro α e a hn hf
+    cases a with
+    | ok v => exact Or.inl ⟨e v, rfl⟩
+    | fault c => exact Or.inr ⟨c, hf c rfl, rfl⟩
+    | exc w => exact absurd rfl (hn w)
+  have hup : ∀ {α : Type} (c : Int), (RpcLog.update mood : Option (RpcLog.Ans α)) = some (.fault c) → c ∈ faults.map (·.2) := by
+    intro α c h
+    unfold RpcLog.update at h
+    split at h
+    · simp only [updateRaises, Option.some.injEq] at h
+      exact rpclog_fault_in_table _ c h
+    · cases h
+  have hcore : ∀ c, RpcLog.readCore dec lf o l = .fault c → c ∈ faults.map (·.2) := by
+    intro c h
+    unfold RpcLog.readCore at h
+    cases lf with
+    | unset => exact rpclog_fault_in_table _ c h
+    | missing => exact rpclog_fault_in_table _ c h
+    | present f =>
+      simp only at h
+      cases hr : LogRead.readFile f o l with
+      | ok d => simp [hr, RpcLog.decodeLog, readDecodeTolerant] at h
+      | error e =>
+        cases e <;> simp only [hr] at h <;> exact rpclog_fault_in_table _ c h
+  refine ⟨key emb _ h1 ?_, key emb _ h2 ?_, key embT _ h3 ?_⟩
+  · intro c h
+    unfold RpcLog.readLog at h
+    cases hu : (RpcLog.update mood : Option (RpcLog.Ans Bytes)) with
+    | some a => rw [hu] at h; simp only at h; subst h; exact hup c hu
+    | none => rw [hu] at h; exact hcore c h
+  · intro c h
+    unfold RpcLog.readProcessLog at h
+    cases hu : (RpcLog.update mood : Option (RpcLog.Ans Bytes)) with
+    | some a => rw [hu] at h; simp only at h; subst h; exact hup c hu
+    | none =>
+      rw [hu] at h
+      cases found with
+      | false => exact rpclog_fault_in_table _ c (by simpa using h)
+      | true => exact hcore c (by simpa using h)
+  · intro c h
+    unfold RpcLog.tailProcessLog at h
+    cases hu : (RpcLog.update mood : Option (RpcLog.Ans RpcLog.TailAns)) with
+    | some a => rw [hu] at h; simp only at h; subst h; exact hup c hu
+    | none =>
+      rw [hu] at h
+      cases found with
+      | false => exact rpclog_fault_in_table _ c (by simpa using h)
+      | true =>
+        cases lf <;> simp [RpcLog.decodeLog, tailDecodeTolerant] at h
+
+/-- **never_500_partial.**  What is proved about the answer to ANY request `nm(args)` against ANY
+    attribute table, in any state:
+
+    1. a name that does not resolve to a public bound method is answered UNKNOWN_METHOD, nothing runs;
+    2. a resolved method called with a wrong number of arguments is answered INCORRECT_PARAMETERS,
+       nothing runs;
+    3. otherwise the body runs exactly once and its outcome is the answer (a TypeError from inside is
+       reported as INCORRECT_PARAMETERS), and
+       a. if the body is that of a public method of SupervisorNamespaceRPCInterface whose row of the
+          generated gate table is `gateOk` (all of them except sendRemoteCommEvent, `gating_table_ok`)
+          and the mood is below RUNNING, the answer is SHUTDOWN_STATE and the state is untouched;
+       b. if the body is one of the log methods (readLog, readProcess*Log, tailProcess*Log as
+          modelled in RpcLog) the answer is a value or a fault of the `Faults` table.
+
+    In 1, 2, 3a, 3b the answer is a fault of the table or a value: no HTTP 500 arises from the
+    dispatcher.  EXCLUDED (hence `_partial`; exercised through the real handler, not proved):
+    what the *other* method bodies answer above the gate (start/stop/signal bodies: C13;
+    reload/add/remove: C15; the info methods), that the value can be marshalled (xmlrpclib; findings
+    F37/F38 live there), DeferredXMLRPCResponse and the medusa request/channel plumbing, and that a
+    deferred answer eventually completes (liveness of the process state machine: C01–C04). -/
+theorem never_500_partial {σ ν : Type} (tbl : Table (Method σ ν)) (nm : Name) (args : List ν) (s : σ) :
+    (resolve tbl nm = .error "UNKNOWN_METHOD" ∧
+      ∃ c, faultCode "UNKNOWN_METHOD" = some c ∧ call tbl nm args s = (.fault c, s)) ∨
+    (∃ m, resolve tbl nm = .ok m ∧
+      (((args.length < m.minArgs ∨ m.maxArgs < args.length) ∧
+          ∃ c, faultCode "INCORRECT_PARAMETERS" = some c ∧ call tbl nm args s = (.fault c, s)) ∨
+       ((m.minArgs ≤ args.length ∧ args.length ≤ m.maxArgs) ∧
+          call tbl nm args s = mapTypeError (m.run args s) ∧
+          (∀ (name : String) (g : Gate) (mood : Int) (nLeaf : Nat) (leafBody body : σ → Outcome σ ν × σ),
+             (name, g) ∈ gateTable → gateOk g = true → mood < moodRunning →
+             m.run args s = runGated g mood nLeaf leafBody body s →
+             ∃ c, faultCode "SHUTDOWN_STATE" = some c ∧ call tbl nm args s = (.fault c, s)) ∧
+          (∀ (o : Outcome σ ν), Documented o → m.run args s = (o, s) →
+             Documented (call tbl nm args s).1 ∧ (call tbl nm args s).2 = s)))) := by
+  rcases traverse_dichotomy tbl nm with ⟨m, hm⟩ | hr
+  · right
+    refine ⟨m, hm, ?_⟩
+    by_cases ha : args.length < m.minArgs ∨ m.maxArgs < args.length
+    · left
+      exact ⟨ha, arity_fault tbl nm m args s hm ha⟩
+    · right
+      have ha' : m.minArgs ≤ args.length ∧ args.length ≤ m.maxArgs := by omega
+      have hb : (decide (args.length < m.minArgs) || decide (m.maxArgs < args.length)) = false := by
+        simp; omega
+      have hcall : call tbl nm args s = mapTypeError (m.run args s) := by
+        simp only [call, hm, hb, Bool.false_eq_true, if_false, mapTypeError]
+        generalize m.run args s = r
+        rcases r with ⟨o, s'⟩
+        cases o <;> rfl
+      refine ⟨ha', hcall, ?_, ?_⟩
+      · intro name g mood nLeaf leafBody body _ hg hmood hrun
+        obtain ⟨c, hc, hr⟩ := gated_answers_shutdown g hg mood hmood nLeaf leafBody body s
+        exact ⟨c, hc, by rw [hcall, hrun, hr]; rfl⟩
+      · intro o ho hrun
+        rw [hcall, hrun]
+        rcases ho with ⟨v, rfl⟩ | ⟨c, hc, rfl⟩
+        · exact ⟨Or.inl ⟨v, rfl⟩, rfl⟩
+        · exact ⟨Or.inr ⟨c, hc, rfl⟩, rfl⟩
+  · left
+    exact ⟨hr, refused_executes_nothing tbl nm args s hr⟩
+
+-- non-vacuity of 3a / 3b
+example : ∃ name g, (name, g) ∈ gateTable ∧ gateOk g = true := ⟨"startProcess", .first, by decide, by decide⟩
+example : Documented (σ := Nat) (ofAns (ν := Bytes) id (RpcLog.readLog RpcLog.pyDecoders 1 (.present [0x61, 0xc3]) 0 0)) :=
+  (log_methods_answer (σ := Nat) id (fun _ => []) RpcLog.pyDecoders 1 true (.present [0x61, 0xc3]) 0 0).1
 
 -- non-vacuity
 def demoTable : Table (Method Nat Nat) := fun ns =>
